@@ -69,6 +69,14 @@ Proof.
     pose proof (Z.mod_pos_bound m 10 ltac:(lia)). lia.
 Qed.
 
+Lemma written_nonempty f m acc ds : 0 < m -> uint2str_digits f m acc = Some ds -> ds <> [].
+Proof.
+  intros Hm. destruct f as [|f]; [discriminate|]. cbn [uint2str_digits].
+  destruct (Z.eqb_spec m 0); [lia|]. intros H.
+  destruct (written_digits f (m / 10) ((m mod 10 + 48) :: acc) ds ltac:(apply Z.div_pos; lia) H) as (pre & -> & _).
+  destruct pre; discriminate.
+Qed.
+
 (* the signed digit loop produces the digits of |x| *)
 Lemma int2str_abs f : forall x acc, Z.abs x <= two63 ->
   int2str_digits f x acc = uint2str_digits f (Z.abs x) acc.
@@ -129,10 +137,7 @@ Proof.
   specialize (Hread 0). change (u64 0) with 0 in Hread. rewrite Z.mul_0_l, Z.add_0_l in Hread.
   rewrite (u64_mod (Z.abs x)), Z.mod_small in Hread by (unfold two63, two64 in *; lia).
   cbn [str2int_digits] in Hread.
-  assert (Hnonempty : ds <> []).
-  { intros ->. cbn [uint2str_digits] in Hds. destruct (Z.eqb_spec (Z.abs x) 0); [lia|].
-    destruct (written_digits 63 (Z.abs x / 10) [Z.abs x mod 10 + 48] [] ltac:(apply Z.div_pos; lia) Hds) as (pre & Hp & _).
-    destruct pre; discriminate. }
+  assert (Hnonempty : ds <> []) by (eapply written_nonempty; [|exact Hds]; lia).
   destruct (Z.ltb_spec x 0) as [Hneg|Hpos].
   - exists (45 :: ds). split.
     + destruct (Z.leb_spec (Z.of_nat (length (45 :: ds))) (INT2STR_BUF - 1)); [reflexivity|].
